@@ -3,20 +3,22 @@
 #include <time.h>
 static std::atomic<long long> g_ns{0};
 static std::atomic<bool> g_real{false};
+static std::atomic<long long> g_step{0};
 namespace vclock {
 void set_ns(long long t) { g_ns.store(t); }
 void advance_ns(long long d) { g_ns.fetch_add(d); }
 long long now_ns() { return g_ns.load(); }
 void use_real(bool on) { g_real.store(on); }
+void set_autostep_ns(long long s) { g_step.store(s); }
 }
 static long long real_ns(clockid_t id) { timespec ts; clock_gettime(id, &ts); return ts.tv_sec * 1'000'000'000LL + ts.tv_nsec; }
 namespace std { namespace chrono { inline namespace _V2 {
 steady_clock::time_point steady_clock::now() noexcept {
     if (g_real.load(std::memory_order_relaxed)) return time_point(nanoseconds(real_ns(CLOCK_MONOTONIC)));
-    return time_point(nanoseconds(vclock::kSteadyEpochNs + g_ns.load()));
+    return time_point(nanoseconds(vclock::kSteadyEpochNs + (g_step.load(std::memory_order_relaxed) ? g_ns.fetch_add(g_step.load(std::memory_order_relaxed)) : g_ns.load())));
 }
 system_clock::time_point system_clock::now() noexcept {
     if (g_real.load(std::memory_order_relaxed)) return time_point(nanoseconds(real_ns(CLOCK_REALTIME)));
-    return time_point(nanoseconds(vclock::kSystemEpochNs + g_ns.load()));
+    return time_point(nanoseconds(vclock::kSystemEpochNs + (g_step.load(std::memory_order_relaxed) ? g_ns.fetch_add(g_step.load(std::memory_order_relaxed)) : g_ns.load())));
 }
 }}}
